@@ -318,13 +318,19 @@ func (m *Meta) RenameTable(from, to string) *Meta {
 	}
 	tsNew := *ts // copy
 	tsNew.Table = to
-	if tmp, ok := m.schema.Get(to); ok && !tmp.IsTomb() {
-		panic("can't rename to existing table: " + to)
+	if tmp, ok := m.schema.Get(to); ok {
+		if !tmp.IsTomb() {
+			panic("can't rename to existing table: " + to)
+		}
+		tsNew.created = 0 // replacing a tombstone, so drop will need a tombstone
 	}
 	ti, ok := m.info.Get(from)
 	assert.That(ok && ti != nil)
 	tiNew := *ti // copy
 	tiNew.Table = to
+	if _, ok := m.info.Get(to); ok {
+		tiNew.created = 0
+	}
 
 	m.setFkeyIIndex(&tsNew)
 	mu := newMetaUpdate(m)
